@@ -219,6 +219,7 @@ def callee_defaults(fv, c):
     d = {}
     for n, dv in zip(names[len(names) - len(args.defaults):], args.defaults):
         if isinstance(dv, ast.Lambda):
+            d[n] = SV(z3.Const('default_lambda!%s!%s' % (c.qual, n), P.V), ANY)    # an opaque callable value
             continue
         d[n] = dv
     return d
@@ -323,7 +324,7 @@ def apply_contract(fv, c, node, st, spec, recv, closure=False):
         havoc_target(fv, sub, mname, st, post, vals, closure)
     res = fv.fresh_typed(st, 'r_' + c.qual.split('.')[-1], rty)
     sub.result_sv = res
-    if c.opts.get('allocates'):
+    if c.opts.get('allocates') or contract_mentions(c, ('newobj', 'fresh', 'allocated')):
         from .heap import ALLOC0
         a0 = st.env['__alloc'].term if '__alloc' in st.env else ALLOC0
         a1 = z3.Const('alloc!%d' % next(E.counter), z3.ArraySort(P.V, z3.BoolSort()))
@@ -358,8 +359,24 @@ def apply_contract(fv, c, node, st, spec, recv, closure=False):
     return res
 
 
+def contract_mentions(c, names):
+    key = '_mentions_' + '_'.join(names)
+    if key not in c.opts:
+        found = False
+        for _, e in c.ensures + c.requires:
+            for n in ast.walk(e):
+                if isinstance(n, ast.Call) and isinstance(n.func, ast.Name) and n.func.id in names:
+                    found = True
+        c.opts[key] = found
+    return c.opts[key]
+
+
 def havoc_target(fv, sub, mname, st, post, vals, closure):
     E = fv.E
+    if mname == '.*':
+        for attr in sorted(E.field_types):
+            havoc_target(fv, sub, '.' + attr, st, post, vals, closure)
+        return
     if mname.startswith('.'):
         attr = mname[1:].split('.')[-1]
         from .symexec import Contract_stub
